@@ -2,6 +2,6 @@
 # tools/sweep.sh <tier> <seeds...>  — every check, every seed; prints one line per run
 TIER=$1; shift
 for s in "$@"; do for id in C01 C02 C03 C04 C05 C06 C07 C08 C09 C10 C11 C12 C13 C14 C15 C16 C17 C18 C19 C20; do
-  t0=$(date +%s.%N); out=$(VERIF_SEED=$s /verif/bin/check $id --tier $TIER 2>&1); rc=$?; t1=$(date +%s.%N)
+  t0=$(date +%s.%N); out=$(VERIF_SEED=$s $(dirname $0)/../bin/check $id --tier $TIER 2>&1); rc=$?; t1=$(date +%s.%N)
   printf "%s seed=%s tier=%s exit=%s %.1fs %s\n" $id $s $TIER $rc $(echo "$t1 - $t0" | bc) "$(echo "$out" | grep -E '^(VIOLATION|INCONCLUSIVE)' | head -2 | tr '\n' ' ' | cut -c1-300)"
 done; done
